@@ -106,6 +106,12 @@ func (t *ProcessorTask) Do(ctx context.Context, b *Batch) error {
 	if len(recsOut) == 0 {
 		return cerrors.Errorf("processor didn't return any records")
 	}
+	if len(recsOut) > len(recsIn) {
+		// A result is matched to its record by index, so a result beyond the
+		// last input record belongs to no record. Marking it would index past
+		// the end of the batch (a panic that takes down the whole process).
+		return cerrors.Errorf("processor returned %d records for %d input records", len(recsOut), len(recsIn))
+	}
 	t.metrics.Observe(len(recsOut), start)
 
 	if len(recsIn) > len(recsOut) {
